@@ -609,34 +609,110 @@ def fcontains(cell, p):
     return not (x - hw > p[0] or x + hw < p[0] or y - hh > p[1] or y + hh < p[1])
 
 
-def crack_explains(c, d, kids):
-    """Tolerance stream only.  Points that were accepted by the root box but are answered for by no leaf.
-    Returns (lost indices, True iff EVERY lost point sits in a binary64 crack: some cell contains it,
-    none of that cell's four children does, and the children are exactly the boxes subdivide() computes)."""
-    cells = d["cells"]
+class _FNode:
+    __slots__ = ("x", "y", "hw", "hh", "leaf", "size", "index", "count", "cum", "com", "kids")
+
+    def __init__(self, x, y, hw, hh):
+        self.x, self.y, self.hw, self.hh = x, y, hw, hh
+        self.leaf, self.size, self.index, self.count, self.cum = True, 0, -1, 0, 0
+        self.com = [0.0, 0.0]
+        self.kids = None
+
+
+class FloatTree:
+    """quadtree.hpp (the code as it is on the pinned tree, with count[] of F24) replayed operation by operation in
+    Python doubles: same operations in the same order, so the dump must agree bit for bit.  Used ONLY to decide
+    whether a failure seen on the tolerance stream is the known binary64 crack: `cracks` counts the events
+    "cell accepted the point, none of its four children did"."""
+
+    def __init__(self, P, x, y, hw, hh):
+        self.P = P
+        self.root = _FNode(x, y, hw, hh)
+        self.cracks = 0
+
+    @staticmethod
+    def contains(n, p):
+        return not (n.x - n.hw > p[0] or n.x + n.hw < p[0] or n.y - n.hh > p[1] or n.y + n.hh < p[1])
+
+    def insert(self, n, i, depth=0):
+        p = self.P[i]
+        if depth > 3000 or not self.contains(n, p):
+            return False
+        n.cum += 1
+        mult1 = float(n.cum - 1) / float(n.cum)
+        mult2 = 1.0 / float(n.cum)
+        n.com[0] *= mult1
+        n.com[1] *= mult1
+        n.com[0] += mult2 * p[0]
+        n.com[1] += mult2 * p[1]
+        if n.leaf and n.size < 1:
+            n.index, n.count, n.size = i, 1, 1
+            return True
+        if n.size == 1 and self.P[n.index][0] == p[0] and self.P[n.index][1] == p[1]:
+            n.count += 1
+            return True
+        if n.leaf:
+            self.subdivide(n, depth)
+        for k in n.kids:
+            if self.insert(k, i, depth + 1):
+                return True
+        self.cracks += 1
+        return False
+
+    def subdivide(self, n, depth):
+        x, y, hw, hh = n.x, n.y, n.hw, n.hh
+        n.kids = [_FNode(x - .5 * hw, y - .5 * hh, .5 * hw, .5 * hh), _FNode(x + .5 * hw, y - .5 * hh, .5 * hw, .5 * hh),
+                  _FNode(x - .5 * hw, y + .5 * hh, .5 * hw, .5 * hh), _FNode(x + .5 * hw, y + .5 * hh, .5 * hw, .5 * hh)]
+        if n.size == 1:
+            for _ in range(n.count):
+                ok = False
+                for k in n.kids:
+                    if self.insert(k, n.index, depth + 1):
+                        ok = True
+                        break
+                if not ok:
+                    self.cracks += 1
+            n.index = -1
+        n.size = 0
+        n.leaf = False
+
+    def dump(self):
+        out = []
+
+        def rec(n):
+            out.append(("L" if n.leaf else "N", n.x, n.y, n.hw, n.hh, n.size, n.index if n.size > 0 else -1,
+                        n.count if n.size > 0 else 0, n.cum, n.com[0], n.com[1]))
+            if not n.leaf:
+                for k in n.kids:
+                    rec(k)
+        rec(self.root)
+        return out
+
+
+def crack_explains(c, d):
+    """Tolerance stream only: is the real dump, bit for bit, what the shipped algorithm computes in binary64, and did
+    that computation meet at least one crack (cell accepts the point, none of its four children does)?  Only then is
+    a specification failure attributed to the known finding F25."""
+    import sys
+    sys.setrecursionlimit(max(sys.getrecursionlimit(), 20000))
     P = [(float(fr(a)), float(fr(b))) for a, b in c["pts"]]
-    stored_pts = {P[cell[6]] for cell in cells if cell[5] > 0 and 0 <= cell[6] < len(P)}
-    cand = [i for i in dict.fromkeys(c["order"]) if fcontains(cells[0], P[i])] if c["mode"] == "E" else list(d["ins"])
-    lost = [i for i in cand if P[i] not in stored_pts]
-    if not lost:
-        return [], False
-    for i in lost:
-        k, ok = 0, False
-        for _ in range(5000):
-            if kids[k] is None or not fcontains(cells[k], P[i]):
-                break
-            x, y, hw, hh = cells[k][1:5]
-            want = [(x - .5 * hw, y - .5 * hh), (x + .5 * hw, y - .5 * hh), (x - .5 * hw, y + .5 * hh),
-                    (x + .5 * hw, y + .5 * hh)]
-            good = all(cells[j][1:5] == (w[0], w[1], .5 * hw, .5 * hh) for j, w in zip(kids[k], want))
-            inside = [j for j in kids[k] if fcontains(cells[j], P[i])]
-            if not inside:
-                ok = good
-                break
-            k = inside[0]
-        if not ok:
-            return lost, False
-    return lost, True
+    cells = d["cells"]
+    x, y, hw, hh = cells[0][1:5]
+    if c["mode"] == "E":
+        want_root = tuple(float(fr(v)) for v in c["root"])
+        if (x, y, hw, hh) != want_root:
+            return False
+    t = FloatTree(P, x, y, hw, hh)
+    res = [1 if t.insert(t.root, i) else 0 for i in c["order"]]
+    if c["mode"] == "E" and res != d["R"]:
+        return False
+    mine = t.dump()
+    if len(mine) != len(cells):
+        return False
+    for a, b in zip(mine, cells):
+        if a[:7] != b[:7] or a[8:] != b[8:] or (b[7] != -1 and a[7] != b[7]):
+            return False
+    return t.cracks > 0
 
 
 def check_impl_alone(ctx, c, d, pts, stats, report):
@@ -648,6 +724,23 @@ def check_impl_alone(ctx, c, d, pts, stats, report):
         if not all(math.isfinite(v) for v in cell[1:5] + cell[9:11]):
             return report("non-finite box or centre of mass in the tree")
     kids = tree_children(cells)
+    if c["kind"].startswith("tol"):
+        # everything below is reported under the known finding F25 iff the dump is exactly what the shipped
+        # algorithm computes in binary64 AND that computation met a rounding crack; otherwise a plain violation
+        plain = report
+        state = {}
+
+        def report(why, signature=None):          # noqa: F811
+            if "crack" not in state:
+                try:
+                    state["crack"] = crack_explains(c, d)
+                except (RecursionError, IndexError, ValueError):
+                    state["crack"] = False
+            if state["crack"]:
+                stats["f25_cracks"] += 1
+                return plain("binary64 rounding crack (cell accepts a point that none of its four children accepts; "
+                             "x -/+ .5*hw rounds): " + why, F25)
+            return plain(why, signature)
     if c["mode"] == "E" and not c["kind"].startswith("tol"):
         x0, x1, y0, y1 = root_box(c["root"])[:4]
         for i, b in zip(c["order"], d["R"]):
@@ -657,13 +750,11 @@ def check_impl_alone(ctx, c, d, pts, stats, report):
                               "(the 'this should never happen' exit; children_cover)" % i)
             if not inside and b != 0:
                 return report("insert(%d) returns true although the point lies outside the root box" % i)
-    if c["kind"].startswith("tol"):
-        lost, crack = crack_explains(c, d, kids)
-        if lost and crack:
-            stats["f25_cracks"] += 1
-            return report("binary64: point(s) %s accepted by a cell are contained in none of its four children "
-                          "(x -/+ .5*hw rounds: the child boxes leave a crack at the cell edge) and are silently "
-                          "dropped from the tree" % lost[:5], F25)
+    if c["kind"].startswith("tol") and c["mode"] == "E":
+        for i, b in zip(c["order"], d["R"]):
+            if b != 1 and fcontains(cells[0], (float(pts[i][0]), float(pts[i][1]))):
+                report("insert(%d) returns false although the root box contains the point" % i)
+                break
     if d["ok"] != 1:
         report("isCorrect() returns false")
     stored = [cell[6] for cell in cells if cell[5] > 0]
@@ -1165,5 +1256,8 @@ def replay(ctx, case):
             print("no longer shown: " + u[:400])
         print("replay: property C18 FAILS on this input")
         return 1
+    if fails[0][0] and fails[0][1]:
+        print("replay: property C18 FAILS on this input, by the KNOWN FINDING %s" % fails[0][1])
+        return 0
     print("replay: property C18 holds on this input")
     return 0
